@@ -10,6 +10,8 @@ of their input.  No per-function expected unit is needed: a handler that labels 
 a determinant or an index array with the wrong unit fails covariance for every input.
 """
 
+import re as _re
+
 import numpy as np
 from hypothesis import strategies as st
 
@@ -73,8 +75,12 @@ ASSIGN = [
 ]
 
 
-def make_wrap(assign, shared, custom):
+KINDS = ("plain", "strided", "float32", "fortran", "nonfinite", "readonly")
+
+
+def make_wrap(assign, shared, custom, kind="plain"):
     from unyt import unyt_array, unyt_quantity
+    from vf.checks.c06 import layout
 
     reg = {0: None, 1: registry(), 2: registry2()}[custom]
 
@@ -83,6 +89,9 @@ def make_wrap(assign, shared, custom):
             role = "A"
         u, mult = assign[role]
         x = x * mult
+        if kind == "float32":
+            x = x.astype("float32")
+        x = layout(x, kind)
         if x.shape == ():
             return unyt_quantity(x, u, registry=reg)
         return unyt_array(x, u, registry=reg)
@@ -105,11 +114,31 @@ def leaf_facts(x):
     return "bare", arr, None
 
 
-def same_numbers(a, b, exact):
+def same_numbers(a, b, exact, raw=None):
     a = np.asarray(a)
     b = np.asarray(b)
     if a.shape != b.shape:
         return False
+    if raw is not None:
+        if np.asarray(raw[0]).dtype != np.asarray(raw[1]).dtype:
+            # one assignment went through double precision (a Python-float coefficient widens float32 data; widths are C17's
+            # subject): the two results can only agree to single precision
+            fa, fb = a.astype(complex), b.astype(complex)
+            with np.errstate(all="ignore"):
+                scale = np.maximum(np.abs(fa), np.abs(fb))
+                big = float(np.nanmax(scale)) if scale.size and np.isfinite(scale).any() else 0.0
+                return bool(np.all((np.abs(fa - fb) <= 4e-6 * np.maximum(scale, big * 1e-3)) | ~np.isfinite(fa) | ~np.isfinite(fb)))
+        # single-precision operands: positions where either stored number left the normal float32 range are not judged
+        # (the two assignments differ by 2**12 .. 2**18 per power of length, so one of them can over/underflow alone)
+        with np.errstate(all="ignore"):
+            bad = np.zeros(a.shape, bool)
+            for r in raw:
+                r = np.abs(np.asarray(r).astype(complex))
+                bad |= (r > 1e37) | (r < 1e-37) | ~np.isfinite(r)
+        if bad.all():
+            return True
+        a = np.where(bad, 0, a)
+        b = np.where(bad, 0, b)
     if exact or a.dtype.kind in "biu":
         return bool(np.array_equal(a, b, equal_nan=a.dtype.kind in "fc"))
     fa, fb = a.astype(complex), b.astype(complex)
@@ -148,20 +177,32 @@ def judge_data(vals, part, templates=None):
 
     out = []
     data = C.make_data(lambda n: list(vals)[:n])
+    kind = KINDS[int(round(abs(list(vals)[0]) * 8)) % len(KINDS)]
+    if kind == "nonfinite":
+        from vf.checks.c06 import variant
+
+        data = variant(data, "nonfinite")
+    part.count(f"data sets of kind {kind}")
     for fn, ex, fl in templates or C.all_templates():
         if "S" in fl or "X" in fl:
             continue
-        tk = ex.replace(" ", "")[:48]
+        if kind in ("float32", "nonfinite") and ("T" in fl or "linalg" in ex or "polyfit" in ex):
+            continue
+        tk = ex.replace(" ", "")[:48] + ("" if kind == "plain" else f"~{kind}")
+        if kind == "nonfinite" and fn == "np.nan_to_num":
+            continue  # +-inf is replaced by the largest float of the dtype: not a covariant operation by definition
         shared = "B" in fl
         for label, exact, as1, as2, regsel in ASSIGN:
             if shared and label in ("dyadic-A-only",):
                 continue
+            if kind == "float32" and not exact:
+                continue  # a tolerance of 1e-9 means nothing in single precision; the bit-exact assignments remain
             part.ev()
             exact_here = exact and "T" not in fl
             r = []
             for asg in (as1, as2):
                 try:
-                    r.append(("ok", C.evaluate(ex, data, make_wrap(asg, shared, regsel))))
+                    r.append(("ok", C.evaluate(ex, data, make_wrap(asg, shared, regsel, kind))))
                 except Exception as e:
                     r.append(("err", e))
             if r[0][0] == "err" and r[1][0] == "err":
@@ -172,6 +213,21 @@ def judge_data(vals, part, templates=None):
                 out.append((f"C07:raises-under-one-assignment:{fn}:{tk}", {"expr": ex, "assignment": label, "error": f"{type(e).__name__}: {e}"[:200]}))
                 continue
             l1, l2 = C.flatten(r[0][1]), C.flatten(r[1][1])
+            if fn.startswith("out=") and ex.startswith("(lambda o: (") and len(l1) == 2 and _re.search(r"\bo\b", ex[12:ex.rfind(", o))")]):
+                # NumPy returns the out= buffer itself: what comes back and what the buffer holds must be one quantity
+                # (independent of covariance: a unit multiplied in twice is consistently wrong under every rescaling)
+                bad = None
+                for ll in (l1, l2):
+                    (k0, v0, d0), (k1, v1, d1) = leaf_facts(ll[0]), leaf_facts(ll[1])
+                    if k0 == "unyt" and k1 == "unyt" and np.shape(v0) == np.shape(v1):
+                        if d0 != d1:
+                            bad = {"returned": str(ll[0].units), "buffer": str(ll[1].units)}
+                        elif "R" not in fl and not same_numbers(v0, v1, False):
+                            bad = {"returned": repr(ll[0])[:100], "buffer": repr(ll[1])[:100]}
+                if bad:
+                    bad.update({"expr": ex, "assignment": label})
+                    out.append((f"C07:out-buffer-disagrees-with-result:{fn}:{tk}", bad))
+                    continue
             if len(l1) != len(l2):
                 out.append((f"C07:structure-changes:{fn}:{tk}", {"expr": ex, "assignment": label}))
                 continue
@@ -209,14 +265,17 @@ def judge_data(vals, part, templates=None):
                     continue
                 if np.size(vx) and np.any(np.asarray(vx) != 0):
                     nontriv = True
-                if not same_numbers(vx, vy, exact_here):
-                    if not exact_here and _unstable(ex, vals, make_wrap(as1, shared, regsel), i, vx, vy):
+                raw = None
+                if kind == "float32":
+                    raw = [np.asarray(z.view(np.ndarray)) if isinstance(z, np.ndarray) and hasattr(z, "units") else np.asarray(z) for z in (x, y)]
+                if not same_numbers(vx, vy, exact_here, raw):
+                    if not exact_here and _unstable(ex, vals, make_wrap(as1, shared, regsel, kind), i, vx, vy):
                         # cancellation / ill-conditioning: the result moves by more than the observed difference when the
                         # data are perturbed in the 12th digit, so the difference says nothing about units
                         part.count("tolerant comparison at an unstable point (not judged)")
                         continue
                     what = "not-covariant" if kx == "unyt" else "bare-result-changes"
-                    out.append((f"C07:{what}:{fn}:{tk}", {"expr": ex, "assignment": label, "leaf": i, "exact_required": exact_here,
+                    out.append((f"C07:{what}:{fn}:{tk}", {"expr": ex, "assignment": label, "leaf": i, "exact_required": exact_here, "data_kind": kind,
                                                      "first": repr(x)[:120], "second": repr(y)[:120],
                                                      "first_SI": np.asarray(vx).ravel()[:4].tolist() if np.asarray(vx).dtype.kind != "c" else repr(np.asarray(vx).ravel()[:3]),
                                                      "second_SI": np.asarray(vy).ravel()[:4].tolist() if np.asarray(vy).dtype.kind != "c" else repr(np.asarray(vy).ravel()[:3])}))
@@ -245,7 +304,8 @@ def run(ctx):
     nt = len(C.all_templates())
     ctx.rule = (
         f"{nt} call templates over {len({f for f, _, _ in C.all_templates()})} NumPy functions/methods/indexing/out= forms x 3 coherent changes of units "
-        "(all roles power-of-64 custom units: bit-exact; role A only; ordinary m->cm, s->ms: rel 1e-9) x Hypothesis-drawn data sets. "
+        "(all roles power-of-64 custom units: bit-exact; role A only; ordinary m->cm, s->ms: rel 1e-9) x Hypothesis-drawn data sets, each "
+        "in one of six operand kinds (contiguous float64, strided views, float32, Fortran order, nan/inf entries, read-only buffers). "
         "non-trivial = distinct (function, template, assignment) whose result is not identically zero/empty and passed through a rescaling != 1"
     )
     ctx.assumptions = [
